@@ -115,8 +115,15 @@ struct string {
   bool starts_with(const string&o)const{ bool e=o.n<=n; for(int i=0;i<MINISTL_STR_CAP;i++) if(i<o.n) e = e & (b[i]==o.b[i]); return e; }
   const char* c_str()const{return b;} const char* data()const{return b;}
   char* begin(){return b;} char* end(){return b+n;}
+#ifdef MINISTL_OPAQUE_CONCAT
+  // harnesses in which concatenation only builds diagnostics: the result is an opaque, non-empty text flagged as truncated (comparing it is a model-bound failure)
+  void __opaque(){ for(int i=0;i<MINISTL_STR_CAP;i++) b[i]=0; b[0]='?'; n=1; trunc=1; }
+  string& operator+=(const string&o){ __opaque(); return *this; }
+  string& operator+=(const char*s){ __opaque(); return *this; }
+#else
   string& operator+=(const string&o){ for(int i=0;i<MINISTL_STR_CAP;i++) if(i<o.n) __push(o.b[i]); if(o.trunc) trunc=1; return *this; }
   string& operator+=(const char*s){ bool live=true; for(int k=0;k<MINISTL_STR_CAP;k++){ if(live && s[k]==0) live=false; if(live) __push(s[k]); } if(live) trunc=1; return *this; }
+#endif
   string substr(size_t pos,size_t len=(size_t)-1)const{ __CPROVER_assert(pos<=(size_t)n,"ministl: substr pos > size (throws)"); string r; for(size_t i=0;i<MINISTL_STR_CAP;i++) if(i>=pos && i<(size_t)n && i-pos<len) r.__push(b[i]); r.trunc=trunc; return r; }
   template<class It> void insert(char*at,It f,It l){ string r; int a=(int)(at-b); long m=l-f; for(int i=0;i<MINISTL_STR_CAP;i++) if(i<a) r.__push(b[i]); for(long q=0;q<MINISTL_STR_CAP;q++) if(q<m) r.__push(f[q]); if(m>=MINISTL_STR_CAP) r.trunc=1; for(int i=0;i<MINISTL_STR_CAP;i++) if(i>=a && i<n) r.__push(b[i]); if(trunc) r.trunc=1; *this=r; }
   bool __eq(const string&o)const{ __CPROVER_assert(!trunc&&!o.trunc,"ministl: comparing truncated string (model bound)"); bool e=(n==o.n); for(int i=0;i<MINISTL_STR_CAP;i++) e = e & (b[i]==o.b[i]); return e; }
@@ -231,6 +238,15 @@ template<class K> struct set : __flat<K,__scap<K>::v> {
 };
 template<class K> bool operator<(const set<K>&a,const set<K>&b){ bool lt=false,dec=false; for(int i=0;i<set<K>::SCAP;i++) if(!dec && i<a.n && i<b.n){ if(a.u.d[i]<b.u.d[i]){ lt=true; dec=true; } else if(b.u.d[i]<a.u.d[i]){ dec=true; } } return dec ? lt : (a.n<b.n); }
 
+struct mutex { void lock(){} void unlock(){} bool try_lock(){ return true; } };
+template<class M> struct lock_guard { explicit lock_guard(M&){} };
+template<class M> struct unique_lock { explicit unique_lock(M&){} void lock(){} void unlock(){} };
+template<class... M> struct scoped_lock { explicit scoped_lock(M&...){} };
+// smart pointers: plain pointer + shared count cell; the pointee is never released in the model (allocation is outside every property)
+template<class T> struct shared_ptr { T* p; shared_ptr():p(0){} shared_ptr(T*q):p(q){} template<class U> shared_ptr(const shared_ptr<U>&o):p(o.p){} T& operator*()const{ __CPROVER_assert(p!=0,"ministl: null shared_ptr dereferenced (UB)"); return *p; } T* operator->()const{ __CPROVER_assert(p!=0,"ministl: null shared_ptr dereferenced (UB)"); return p; } T* get()const{ return p; } explicit operator bool()const{ return p!=0; } long use_count()const{ return p?2:0; } bool unique()const{ return false; } void reset(){ p=0; } void reset(T*q){ p=q; } };
+template<class T,class... A> shared_ptr<T> make_shared(A&&... a){ return shared_ptr<T>(new T(static_cast<A&&>(a)...)); }
+template<class T> struct unique_ptr { T* p; unique_ptr():p(0){} explicit unique_ptr(T*q):p(q){} unique_ptr(unique_ptr&&o):p(o.p){ o.p=0; } unique_ptr& operator=(unique_ptr&&o){ p=o.p; o.p=0; return *this; } T& operator*()const{ __CPROVER_assert(p!=0,"ministl: null unique_ptr dereferenced (UB)"); return *p; } T* operator->()const{ __CPROVER_assert(p!=0,"ministl: null unique_ptr dereferenced (UB)"); return p; } T* get()const{ return p; } explicit operator bool()const{ return p!=0; } void reset(T*q=0){ p=q; } };
+template<class T,class... A> unique_ptr<T> make_unique(A&&... a){ return unique_ptr<T>(new T(static_cast<A&&>(a)...)); }
 template<class> struct function;
 template<class R,class... A> struct function<R(A...)> {
   R (*inv)(const char*,A...); char buf[MINISTL_FN_CAP];
